@@ -328,15 +328,29 @@ def h_data_closed(client, how):
     return h
 
 
-def h_settings_ack(client, manual=False):
-    """local INITIAL_WINDOW_SIZE change acknowledged by the peer"""
+def h_settings_ack(client, manual=False, reserved=False):
+    """local INITIAL_WINDOW_SIZE change acknowledged by the peer; reserved=True: the stream
+    is one the client has been promised and that is not open yet"""
     def h():
         with h2h.native():
-            me = _witness(client)
-        sw = h2h.Adapter.stream_wm(me, 1)
+            if reserved:
+                c, s = h2h.pair()
+                c.send_headers(1, h2h.REQ, end_stream=True)
+                h2h.pump(c, s)
+                s.push_stream(1, 2, h2h.REQ)
+                h2h.pump(c, s)
+                me = c
+                h2h.Adapter.set_wm(h2h.Adapter.stream_wm(me, 1), 0, 0, 0)
+            else:
+                me = _witness(client)
+        sid = 2 if reserved else 1
+        sw = h2h.Adapter.stream_wm(me, sid)
         old = sym_int('old', 0, INT31, default=65535)
         new = sym_int('new', 0, INT31, default=10)
         sc, sm, sp, su = _sym_wm('s1', sw, manual)
+        if reserved:
+            # no DATA can have arrived on a stream that is still reserved
+            assume_z(s_and(s_eq(sp, 0), s_eq(su, 0)))
         if manual:
             # manual increments only ever raise the maximum above the acknowledged setting
             assume_z(s_le(old, sm))
@@ -356,7 +370,7 @@ def h_settings_ack(client, manual=False):
         note('applied')
         si = 0
         for fr in out.frames():
-            if isinstance(fr, hf.WindowUpdateFrame) and fr.stream_id == 1:
+            if isinstance(fr, hf.WindowUpdateFrame) and fr.stream_id == sid:
                 si = si + fr.window_increment
         check(sw.current_window_size == sc + (new - old) + si, 'settings-window', None)
         if manual:
@@ -387,6 +401,9 @@ def shards(tier, seed):
                          expect=['absorbed', 'overrun']))
         out.append(Shard('data_on_ended_stream/%s' % r, h_data_closed(client, 'ended')))
         out.append(Shard('settings_ack/%s' % r, h_settings_ack(client), expect=['applied']))
+        if client:
+            out.append(Shard('settings_ack_reserved/%s' % r,
+                             h_settings_ack(client, reserved=True), expect=['applied']))
         out.append(Shard('manual/acknowledge/%s' % r, h_ack_glue(client, True), budget=120,
                          expect=['acked']))
         out.append(Shard('manual/recv_data/%s' % r, h_data(client, True),
